@@ -126,8 +126,12 @@ def _section(lines, indent, name, level):
     lines.append(" " * indent + "[" * level + name + "]" * level)
 
 
+_META_KEYS = {"zb_frac", "z_lo_frac", "z_hi_frac", "axial_positions_frac", "axial_plane_frac",
+              "axial_mesh_size_frac", "gap_thickness_frac"}
+
+
 def _kv(lines, indent, k, v):
-    if v is None or k.endswith("_frac") or k.startswith("_"):
+    if v is None or k in _META_KEYS or k.startswith("_"):
         return
     lines.append(" " * indent + "%s = %s" % (k, fmt(v)))
 
